@@ -136,6 +136,11 @@ class Hash(object):
                     for L in (0, 1, block - 1, block, block + 1):
                         for pl in "ES":
                             out.append(("hash", name, "C", pre, L, pl))
+            if modname.startswith(("SHA3_", "keccak", "CMAC")):
+                for L1 in (0, 1, block - 1, block, block + 1):
+                    for L2 in (0, 1, block - 1, block, block + 1):
+                        for pl in "ES":
+                            out.append(("hash", name, "UAD", L1, L2, pl))
             if fin == "r":
                 rl = lens_for(tier, block if block < 1000 else 168, big=primary, reduced=not primary)
                 for L in ((0, 1, 200) if th else (1,)):
@@ -211,6 +216,13 @@ class Hash(object):
             if HASHES[name][3] == "d":
                 finish(c2, name)
             return r if r != "ok" else r2
+        if op == "UAD":
+            h = new_hash(name, pl, over={"update_after_digest": True})
+            h.update(S.IN.view(a, pl, data(a)))
+            d1 = h.digest()
+            h.update(S.A.view(b, pl, data(b, 3000)))
+            d2 = h.digest()
+            return "ok" if len(d1) == len(d2) else "ret-shape"
         if op == "R":
             h = new_hash(name, "E", guard=False)
             h.update(data(a, 5000))
@@ -568,6 +580,8 @@ class Misc(object):
 
     @staticmethod
     def group(case):
+        if case[1] == "eks" and case[3] == 0:
+            return "eks(empty salt)"          # its own entry-point label: a death here must not skip the other eks cases
         return {"pkcs1_out": "pkcs1", "eks_use": "eks", "eks_mode": "eks", "scrypt_keys": "scrypt", "bcrypt_check_hash": "bcrypt_check",
                 "rsa15raw": "rsa15"}.get(case[1], case[1])
 
